@@ -1,4 +1,5 @@
 import MypyVerif.Proofs.FixedWidth
+import MypyVerif.Proofs.FloatConv
 /-!
 # C15 — compiled numeric primitives compute exactly what Python computes
 
@@ -578,19 +579,19 @@ theorem int_to_i64_spec (src : BitVec 64) :
 theorem int_to_i32_spec (src : BitVec 64) :
     (∃ v, intToNarrow 32 true src = .fast v ∧ isShort src ∧ v.toInt = sval src ∧
         -2147483648 ≤ sval src ∧ sval src < 2147483648) ∨
-    (intToNarrow 32 true src = .raise "ValueError" 0#32 ∧
+    (intToNarrow 32 true src = .raise "ValueError" 4294967183#32 ∧
         ¬ (isShort src ∧ -2147483648 ≤ sval src ∧ sval src < 2147483648)) := intToI32_spec src
 
 theorem int_to_i16_spec (src : BitVec 64) :
     (∃ v, intToNarrow 16 true src = .fast v ∧ isShort src ∧ v.toInt = sval src ∧
         -32768 ≤ sval src ∧ sval src < 32768) ∨
-    (intToNarrow 16 true src = .raise "ValueError" 0#16 ∧
+    (intToNarrow 16 true src = .raise "ValueError" 65423#16 ∧
         ¬ (isShort src ∧ -32768 ≤ sval src ∧ sval src < 32768)) := intToI16_spec src
 
 theorem int_to_u8_spec (src : BitVec 64) :
     (∃ v, intToNarrow 8 false src = .fast v ∧ isShort src ∧ (v.toNat : Int) = sval src ∧
         0 ≤ sval src ∧ sval src < 256) ∨
-    (intToNarrow 8 false src = .raise "ValueError" 0#8 ∧
+    (intToNarrow 8 false src = .raise "ValueError" 239#8 ∧
         ¬ (isShort src ∧ 0 ≤ sval src ∧ sval src < 256)) := intToU8_spec src
 
 theorem fixed_to_int_spec :
@@ -602,7 +603,37 @@ theorem fixed_to_int_spec :
   ⟨i64ToInt_spec, i32ToInt_spec, i16ToInt_spec, u8ToInt_spec⟩
 
 example : intToNarrow 8 false 510#64 = .fast 255#8 := by decide          -- u8(255)
-example : intToNarrow 8 false 512#64 = .raise "ValueError" 0#8 := by decide   -- u8(256)
+example : intToNarrow 8 false 512#64 = .raise "ValueError" 239#8 := by decide   -- u8(256)
 example : intToNarrow 16 true 18446744073709486080#64 = .fast 32768#16 := by decide  -- i16(-32768)
+
+/-! ## `int / int` and `int <op> float`: where the compiled code is *not* exact (findings F24, F25)
+
+The full statements ("compiled true division / mixed comparison equals CPython's for all operands") are false
+of the current code; they stay visible as refuted, with the witnesses replayed on the real code on every
+run (`harness/c15/run.py`, stream `witness`), and the part that does hold is stated as `…_partial`. -/
+
+/-- F24: `CPyTagged_TrueDivide` rounds the operands before dividing: `(2^53+1) / 3` is
+    `3002399751580330.5` compiled, `3002399751580331.0` in CPython. -/
+theorem not_truediv_exact : ¬ ∀ a b : Int, b ≠ 0 →
+    (FloatConv.compiledTrueDiv a b).same (FloatConv.cpythonTrueDiv a b) = true := by
+  intro h
+  have h1 := h 9007199254740993 3 (by decide)
+  rw [FloatConv.compiled_truediv_witness] at h1
+  cases h1
+
+/-- what holds: operands up to 2^53 in magnitude convert exactly, so the single IEEE division is CPython's -/
+theorem truediv_exact_partial (a b : Int)
+    (ha : -9007199254740992 ≤ a ∧ a ≤ 9007199254740992) (hb : -9007199254740992 ≤ b ∧ b ≤ 9007199254740992) :
+    FloatConv.compiledTrueDiv a b = FloatConv.cpythonTrueDiv a b := FloatConv.truediv_exact_partial a b ha hb
+
+/-- F25: comparing an `int` with a `float` goes through `(double)int`: `2^53+1 == 2.0^53` holds after the
+    conversion although the integers differ. -/
+theorem not_int_float_compare_exact : ¬ ∀ a f : Int, (FloatConv.toDouble a = f ↔ a = f) := by
+  intro h
+  have := (h 9007199254740993 9007199254740992).1 FloatConv.toDouble_witness
+  omega
+
+theorem int_float_compare_exact_partial (a : Int) (h : -9007199254740992 ≤ a ∧ a ≤ 9007199254740992) :
+    FloatConv.toDouble a = a := FloatConv.toDouble_small a h
 
 end C15
